@@ -237,6 +237,12 @@ pub fn run_history(h: &[Op]) -> (String, String) {
                     }
                 }
                 resp.push(s);
+                // the current scope holds exactly the bindings made in it
+                let want = stack.last().unwrap().len();
+                let got = table.len_current_scope();
+                if got != want {
+                    fail(&mut oracle, format!("after {}: the current scope has {got} bindings, {want} were made in it", op_str(o)));
+                }
             }
         }
     }
